@@ -1,6 +1,8 @@
 (* Property C05 - throttling bounds recorded frames by the token bucket in every interval. *)
 From Coq Require Import List ZArith Bool.
 From TR Require Import model.Throttle model.ThrottleSpec proofs.BucketProofs proofs.ThrottleProofs proofs.ThrottleSec model.ThrExt proofs.TieCorollaries.
+(* constants and wiring read from the Go sources on every run *)
+From TR Require Import proofs.FactsThrottle.
 Import ListNotations.
 Open Scope Z_scope.
 
